@@ -366,6 +366,14 @@ func C04(c *core.Ctx) {
 	c04Round4(c)
 	c04Round4b(c)
 	// ---- R4.11 (shared with C03 R3.6) the segmented reader steps over every exhausted segment
+	// ---- R4.16 (shared with C10 R10.3) a message whose last fragment arrived leaves the
+	// reassembly store whether or not its payload decodes: removal that waits for a
+	// successful parse leaves the entry behind on the error returns — a frame that fails to
+	// decode has then changed forwarder state, and the next message reusing that sequence
+	// number is lost
+	c.Import(C10, "R4.16", "a completed message can stay in the partial-message store (its removal is not on every path from the completion): a message whose payload fails to decode leaves state behind", 1, func(k string) bool {
+		return strings.HasPrefix(k, "R10.3:completed-message-removed")
+	})
 	c.Import(C03, "R4.11", "a wire with two empty segments in a row (which the no-copy encoder emits for an empty content buffer) makes the segmented reader index out of range: ReadData / ReadPacket panic", 1, func(k string) bool {
 		return strings.HasPrefix(k, "R3.6:segment-advance")
 	})
@@ -1128,7 +1136,52 @@ func c04Round4(c *core.Ctx) {
 		if create == nil {
 			c.Und("R4.10", "reassembly-store-bounded", p.Pos(ra.Pos()), "no creation of a partial-message entry found in reassemblePacket")
 		} else {
-			c.Decide(bounded, "R4.10", "reassembly-store-bounded", c.Pos(create), "the number of partially received messages is tested before an entry is created", "reassemblePacket creates an entry (a slot list of FragCount elements) for every first fragment and never gives up unfinished messages: 2000 frames of 22 bytes announcing FragCount=8800 make a face retain about 400 MB — memory out of proportion to the input, over a history of frames")
+			// … on every path: the entry is created either on an edge asserting that the store
+			// is not full, or after the store was emptied
+			if bounded && create.Parent() == ra {
+				store := create.(*ssa.MapUpdate).Map
+				notFull := &core.Atom{Name: "store not full", Match: func(cond ssa.Value) (int, int) {
+					op, x, y, ok := core.Cmp(cond)
+					if !ok {
+						return 0, 0
+					}
+					l, isLen := core.LenOf(core.StripConv(x))
+					if !isLen {
+						if l2, isLen2 := core.LenOf(core.StripConv(y)); isLen2 {
+							l, op, isLen = l2, core.Swap(op), true
+						}
+					}
+					if !isLen || !(core.Strip(l) == core.Strip(store) || core.Same(l, store)) {
+						return 0, 0
+					}
+					switch op {
+					case token.GEQ, token.GTR:
+						return -1, 1
+					case token.LSS, token.LEQ:
+						return 1, -1
+					}
+					return 0, 0
+				}}
+				isClear := func(in ssa.Instruction) bool {
+					if cl, ok := in.(*ssa.Call); ok {
+						if b, isB := cl.Call.Value.(*ssa.Builtin); isB && b.Name() == "clear" && len(cl.Call.Args) == 1 {
+							return core.Strip(cl.Call.Args[0]) == core.Strip(store) || core.Same(cl.Call.Args[0], store)
+						}
+					}
+					if st, ok := in.(*ssa.Store); ok {
+						if _, isMk := core.Strip(st.Val).(*ssa.MakeMap); isMk {
+							return core.Same(st.Addr, store) || sameFieldAddr(st.Addr, store)
+						}
+					}
+					return false
+				}
+				cut, per := core.CutEdges(ra, pos(notFull))
+				path := core.ReachInstr(ra, create, cut, isClear)
+				if path != nil || per[0] == 0 {
+					bounded = false
+				}
+			}
+			c.Decide(bounded, "R4.10", "reassembly-store-bounded", c.Pos(create), "on every path an entry is created only while the store is not full, or after it was emptied", "reassemblePacket can create an entry (a slot list of FragCount elements) on a path that neither found the store below its limit nor emptied it (e.g. for fragments that are not the first of their message): 2000 frames of 22 bytes announcing FragCount=8800 make a face retain about 400 MB — memory out of proportion to the input, over a history of frames")
 		}
 	}
 }
@@ -1242,4 +1295,15 @@ func c04Round4b(c *core.Ctx) {
 		})
 		c.Decide(nMake > 0 && bad == "", "R4.15", "segmented-read-reserves-in-proportion", p.Pos(rw.Pos()), fmt.Sprintf("%d allocations in ReadWire, none sized by the segment count of the whole input", nMake), "WireReader.ReadWire sizes the wire it returns by the number of segments of the whole input ("+bad+"), for every read however short: an 8800-byte packet of 4398 empty elements split into one-byte segments allocates 480 MB through the segmented reader and 106 KB through the contiguous one")
 	}
+}
+
+// sameFieldAddr: addr is the address of the field that v was loaded from.
+func sameFieldAddr(addr, v ssa.Value) bool {
+	u, ok := core.Strip(v).(*ssa.UnOp)
+	if !ok {
+		return false
+	}
+	fa1, ok1 := u.X.(*ssa.FieldAddr)
+	fa2, ok2 := addr.(*ssa.FieldAddr)
+	return ok1 && ok2 && fa1.Field == fa2.Field && (fa1.X == fa2.X || core.Same(fa1.X, fa2.X))
 }
